@@ -269,6 +269,16 @@ func fullArgs(e *Event) []*T {
 	return append(out, e.Args...)
 }
 
+// lastArgs: the last n entries of fullArgs (the arguments proper, whether or not the object the call is about is
+// passed as receiver or as first argument); nil when there are fewer.
+func lastArgs(e *Event, n int) []*T {
+	a := fullArgs(e)
+	if len(a) < n {
+		return nil
+	}
+	return a[len(a)-n:]
+}
+
 // argN: the n-th entry of fullArgs, nil when absent.
 func argN(e *Event, n int) *T {
 	a := fullArgs(e)
